@@ -71,6 +71,7 @@ type Shared struct {
 	witnessEvery                                           int
 	Funcs                                                  map[string]bool
 	Completed                                              map[string]int
+	Stubs                                                  map[string]bool
 	MapSites                                               map[string]int
 	Queries                                                int
 	SolverTime                                             time.Duration
@@ -81,7 +82,7 @@ type Shared struct {
 
 func newShared() *Shared {
 	s := &Shared{UnsupportedReasons: map[string]int{}, InconclusiveReasons: map[string]int{}, violIdx: map[string]*Violation{},
-		Funcs: map[string]bool{}, MapSites: map[string]int{}, Completed: map[string]int{}}
+		Funcs: map[string]bool{}, MapSites: map[string]int{}, Completed: map[string]int{}, Stubs: map[string]bool{}}
 	s.cond = sync.NewCond(&s.mu)
 	return s
 }
@@ -362,6 +363,8 @@ func (ex *Explorer) Choose(n int, why string) int {
 	kind := "c"
 	if why == "map-order" {
 		kind = "m"
+	} else if why == "env" {
+		kind = "e"
 	}
 	t := ex.in.newInput(kind, 8)
 	ex.Assume(bvCmp("bvult", t, Const(8, uint64(n))))
@@ -388,6 +391,16 @@ func (sh *Shared) reasons(m map[string]int) []string {
 	var r []string
 	for k, v := range m {
 		r = append(r, fmt.Sprintf("%dx %s", v, k))
+	}
+	sort.Strings(r)
+	return r
+}
+
+
+func (sh *Shared) stubList() []string {
+	var r []string
+	for k := range sh.Stubs {
+		r = append(r, k)
 	}
 	sort.Strings(r)
 	return r
